@@ -133,12 +133,12 @@ CLAIMED = {
          'repeat the calls: same arguments, same text) is executed on the real code for every generated case with a fixed store.',
          BASE + 'Partial: the replay statement is not a Lean theorem (it needs the serialiser and parser models of C06/C02); it is checked '
          'by real replay. Calls failing on a missing REQUIRED are excluded from replay (DESIGN §7 D23). Values reference-free here.'),
- 'C08': ('Theorems inv_reachable / matching_spec / matching_nodup / getMatch_spec / getAll_spec hold for every history of '
+ 'C08': ('Theorems inv_reachable / matching_spec / matching_nodup / getMatch_spec / getAll_spec / minimal_spec (the reported name is a '
+         'non-empty suffix addressing exactly that entry, every shorter non-empty suffix addresses another entry) / minimal_resolves_back hold for every history of '
          'insertions, removals and clears and every query; the trie mirror is tied to gin/selector_map.py by running the same random '
          'operation histories on both; an independent naive set-of-names oracle (incl. minimal_selector resolve-back and minimality, '
          'copy independence) is evaluated on the implementation.',
-         BASE + 'Modelled, not verified: CPython dict semantics. Identifiers ASCII. minimal_selector correctness is not yet a theorem '
-         '(mirror + oracle only).'),
+         BASE + 'Modelled, not verified: CPython dict semantics. Identifiers ASCII.'),
  'C13': ('Theorems register_reject_atomic (a rejected registration changes nothing, for every state and request) / '
          'register_changes_registry_only / reregister_rejected / reregister_interactive_no_clash / reregister_same_object_no_clash / '
          'interactive_only_flag / registered_resolves / exact_unless_methods / subclass_only_for_methods hold for every state; the '
